@@ -60,6 +60,41 @@ def to_script(beh, level, base, icpt_max=0):
             "steps": steps}
 
 
+def idle_script(rng, level):
+    """A stream that has been acknowledged completely stays silent for many reports (another one keeps the reports coming),
+    then resumes with a late copy of an old packet followed by new ones: nothing reported received may later be reported lost."""
+    a, b = rng.sample(range(1, 2 ** 31 - 1), 2)
+    pa, pb = rng.choice([0, 65520, 30000]), rng.choice([5, 65000])
+    clk = rng.choice([10000, 1000000])
+    steps = []
+
+    def add(s, n):
+        steps.append({"a": "add", "s": s, "n": n % 65536, "t": clk, "ecn": 0})
+    for i in range(10):
+        clk += 5000
+        add(a, pa + i)
+    add(b, pb)
+    clk += 20000
+    steps.append({"a": "build", "now": clk, "max": 1200})
+    for k in range(rng.choice([49, 50, 51, 60, 120])):      # reports without anything new on the first stream
+        clk += 100000
+        add(b, pb + 1 + k)
+        clk += 1000
+        steps.append({"a": "build", "now": clk, "max": 1200})
+    clk += 5000
+    add(a, pa + rng.choice([4, 8, 9]))                      # a late copy of an acknowledged packet
+    clk += 5000
+    add(a, pa + 10)
+    clk += 5000
+    add(a, pa + 12)
+    clk += 20000
+    steps.append({"a": "build", "now": clk, "max": 1200})
+    clk += 100000
+    steps.append({"a": "build", "now": clk, "max": 1200})
+    base = rng.choice(BASES)
+    return {"level": level, "base": base, "ntp16": (base + NTP_UNIX) % 65536, "max": 0, "steps": steps}
+
+
 def random_script(rng, level, n, nstreams, icpt_max=0):
     """Seeded long history; clock values are microseconds (kept below MAX_CLK)."""
     ssrcs = rng.sample(range(1, 2 ** 31 - 1), nstreams)
@@ -218,6 +253,8 @@ def run(ctx):
         rec.append(random_script(rng, "rec", length, rng.choice([1, 1, 2, 2, 3, 3, 5, 10])))
     for i in range(nic):
         icpt.append(random_script(rng, "icpt", length // 2, rng.choice([1, 2, 3, 4]), rng.choice([0, 0, 1200, 100, 102, 600, 1199])))
+    rec += [idle_script(rng, "rec") for _ in range(2 if ctx.quick else 10)]
+    icpt += [idle_script(rng, "icpt") for _ in range(1 if ctx.quick else 5)]
     # quick: one Recorder batch (families + walks + random) and one interceptor batch; thorough: the families ran above
     run_chunked(ctx, rec, "GT-rec" if ctx.quick else "T-rec-walks-random", 20000 if ctx.quick else 300)
     run_chunked(ctx, icpt, "GT-icpt", 20000 if ctx.quick else 2000)
